@@ -111,4 +111,4 @@ def run_sched(res, tier, broken, prop, extra_t1=(), validate_fn=None):
 
 
 def replay(res, path):
-    return vs.replay("sc_units", ["sc_units.c"], path, validate)
+    return vs.replay("sc_units", ["sc_units.c"], path, validate_with_join)
